@@ -114,7 +114,7 @@ def run(ctx):
   ctx.trusted = ["Coq 8.16.1 kernel + vm_compute", "hand-written model Model/SCML.v tied by the re-run",
                  "oracles: basis generators (eigh / KMeans / LDA): post-condition n_basis unit-norm rows checked per run",
                  "binary64 rounding: model and implementation may sum in different orders (tolerance 1e-7)"]
-  ok = ctx.build_property()
+  ok = ctx.build_property(gen_needed=['Src_scml'])
   terms, recs, kinds = [], [], []
   n = 72 if thorough else 18
   for i in range(n):
